@@ -289,7 +289,7 @@ def sel_select(rlist, wlist, xlist, timeout=None):
                 return True
         return bool(w)
     if not ready() and (timeout is None or timeout > 0):
-        W.block(ready, None if timeout is None else _us(timeout), 'select%r' % (tuple(r),))
+        W.wait_interruptible(ready, None if timeout is None else _us(timeout), 'select%r' % (tuple(r),))
     rr = [fd for fd in r if _ready_r(fd)]
     W.log('select', (tuple(r), timeout), tuple(rr))
     return (rr, list(w), [])
@@ -342,8 +342,8 @@ class SimPoll(object):
         if timeout is not None and timeout < 0:
             timeout = None
         if not self._events() and (timeout is None or timeout > 0):
-            W.block(lambda: bool(self._events()),
-                    None if timeout is None else int(round(timeout * 1000.0)), 'poll')
+            W.wait_interruptible(lambda: bool(self._events()),
+                                 None if timeout is None else int(round(timeout * 1000.0)), 'poll')
         ev = self._events()
         W.log('poll', (tuple(self.reg), timeout), tuple(ev))
         return ev
